@@ -50,6 +50,11 @@ func checkC16(c *Ctx) {
 	c.starSkeleton()
 	c.generatorCommands("GENCMD")
 	c.orientRule("ORIENT")
+	c.Decides("SHADOW-RESULT: no function of the repository with a named error result (the RunE closures of the generate commands included) hides that result behind an inner `err :=` whose failure branch neither returns nor stops: the rejection of a bad size would be logged and reported as success")
+	nsr, _ := c.shadowResult("SHADOW-RESULT", c.All, "sizes below the documented minimum are rejected with an error")
+	if nsr < 100 {
+		c.Undecided("SHADOW-RESULT", "scan-count", 0, fmt.Sprintf("only %d functions with a named error result seen (139 confirmed by hand)", nsr))
+	}
 	c.Floor("GF", 10)
 	c.Floor("PATH", 5)
 	c.Floor("LENGTH", 12)
